@@ -198,7 +198,46 @@ def rule_bip85_languages(ctx: Ctx, rep: Report) -> None:
     rep.floor(rule, 8)
 
 
+def rule_orderings(ctx: Ctx, rep: Report) -> None:
+    """C13.orderings: two "use after the right normalisation, not before / not
+    without" orderings. SLIP39: the identifier that salts the encryption is the
+    15-bit one the shares carry -- the mask lies on every path between the draw
+    and its first use. Electrum: the seed *type* is decided on the sentence as
+    written (its word count), Electrum's normalisation joining CJK words into
+    one: the type is asked before the text is normalised."""
+    rule = "C13.orderings"
+    ms = ctx.func(f"{S39}.mnemonics_from_master_secret")
+    g = ctx.cfg(ms)
+    m: dict[str, str] = {}
+    draw = PT.find(ms.node, "$id = int.from_bytes(entropy_source(2), byteorder='big')", m)
+    if draw is None:
+        rep.unknown(rule, "slip39:identifier", ms.where(), "the identifier draw is not in the shape this rule reads")
+    else:
+        idn = m["id"]
+        masks = [a for a in own_nodes(ms.node) if (isinstance(a, ast.AugAssign) and isinstance(a.op, ast.BitAnd) and norm(a.target) == idn)
+                 or (isinstance(a, ast.Assign) and norm(a.targets[0]) == idn and isinstance(a.value, ast.BinOp) and isinstance(a.value.op, (ast.BitAnd, ast.Mod)))]
+        uses = [c for c in own_nodes(ms.node) if isinstance(c, ast.Call) and call_name(c) not in ("from_bytes",) and any(isinstance(a, ast.Name) and a.id == idn for a in list(c.args) + [k.value for k in c.keywords])]
+        ok = bool(masks) and bool(uses) and g.path_avoiding([i for u in uses for i in g.nodes_containing(u)], [i for a in masks for i in g.nodes_containing(a)]) is None
+        rep.ob(rule, "slip39:identifier_masked_before_use", ok, ms.where(masks[0] if masks else draw),
+               "masked to 15 bits before it salts the encryption and is written into the shares" if ok else
+               "the identifier is used before it is masked to 15 bits: the secret is encrypted under a salt the shares do not carry, and every qualifying set recovers another secret")
+    vm = ctx.func(f"{EL}.version_from_mnemonic") if "EL" in globals() else ctx.func("btclib.mnemonic.electrum.version_from_mnemonic")
+    g2 = ctx.cfg(vm)
+    tcalls = [c for c in own_nodes(vm.node) if isinstance(c, ast.Call) and call_name(c) == "_mnemonic_type"]
+    norms = [a for a in own_nodes(vm.node) if isinstance(a, ast.Assign) and isinstance(a.value, ast.Call) and call_name(a.value) == "_normalize"
+             and any(isinstance(t, ast.Name) and any(isinstance(x, ast.Name) and x.id == t.id for c in tcalls for x in c.args) for t in a.targets)]
+    if not tcalls:
+        rep.unknown(rule, "electrum:type_before_normalize", vm.where(), "no _mnemonic_type call")
+    else:
+        direct = any(isinstance(x, ast.Call) and call_name(x) == "_normalize" for c in tcalls for a in c.args for x in ast.walk(a))
+        before = [a for a in norms if any(g2.path_avoiding(g2.nodes_containing(c), g2.nodes_containing(a)) is None for c in tcalls)]
+        rep.ob(rule, "electrum:type_before_normalize", not direct and not before, vm.where(tcalls[0]),
+               "the type is decided on the sentence as written" if not direct and not before else
+               "the sentence is normalised before its words are counted: a CJK sentence becomes one word and a valid 2fa seed is refused")
+
+
 RULES = [
+    ("C13.orderings", rule_orderings),
     ("C13.bip85_languages", rule_bip85_languages),
     ("C13.params_forwarded", rule_params_forwarded_),
     ("C13.bip85_input", rule_bip85_input),
@@ -208,6 +247,8 @@ RULES = [
 ]
 
 CONTROLS = [
+    {"rule": "C13.orderings", "name": "the slip39 identifier is masked after it salted the encryption", "module": S39,
+     "edit": lambda ctx: M.sub_expr(ctx, f"{S39}.mnemonics_from_master_secret", lambda n: isinstance(n, ast.AugAssign) and isinstance(n.op, ast.BitAnd) and norm(n.target) == "identifier", "pass")},
     {"rule": "C13.bip85_languages", "name": "the two Chinese rows are transposed", "module": "btclib.bip85",
      "edit": lambda ctx: M.sub_module_expr(ctx, "btclib.bip85", lambda n: isinstance(n, ast.Constant) and n.value == 4 and isinstance(parent(n), ast.Dict) and len(parent(n).keys) == 10, "5")},
     {"rule": "C13.bip85_input", "name": "the key's leading zeros are stripped", "module": "btclib.bip85",
